@@ -341,7 +341,16 @@ fn execute(world: &World<'_>, case: &Case, chooser: &mut dyn Chooser, info: &mut
     for (r, ops) in case.readers.iter().enumerate() {
         jobs.push(reader_job(&inst, r + 1, ops.clone(), session, out.clone()));
     }
-    let run = sched::run_opts(jobs, chooser, &mut |_| Ok(()), &Opts { stutter_labels: Some(STUTTER_LABELS) });
+    let mut watch = Watch::new(&inst.history);
+    let run = sched::run_opts(
+        jobs,
+        chooser,
+        &mut |t| {
+            watch.on_step(t);
+            Ok(())
+        },
+        &Opts { stutter_labels: Some(STUTTER_LABELS), ..Default::default() },
+    );
     if let Some((tid, msg)) = run.panics.first() {
         return Verdict::fail("C15/thread-panic", format!("thread {} panicked: {}", tid, msg));
     }
@@ -352,8 +361,8 @@ fn execute(world: &World<'_>, case: &Case, chooser: &mut dyn Chooser, info: &mut
         return Verdict::Dropped("schedule_step_bound".into());
     }
     let trace = &run.trace;
-    let ups = updater_positions(trace, 0);
-    if ups.len() != case.sets.len() || ups.iter().any(|u| !u.ok || u.install.is_none() || u.mark_done.is_none()) {
+    let mut ups = updater_positions(trace, 0);
+    if ups.len() != case.sets.len() || !watch.apply(&mut ups) || ups.iter().any(|u| !u.ok || u.install.is_none() || u.mark_done.is_none()) {
         return Verdict::Dropped("updater_trace_incomplete".into());
     }
     let installs: Vec<usize> = ups.iter().map(|u| u.install.unwrap()).collect();
@@ -433,8 +442,8 @@ fn dfs_programs(tier: Tier) -> Vec<Case> {
         c(&[1], &[3, 3], &[&[RtrFull, RtrNotify]]),
         c(&[1, 2], &[6], &[&[DeltaReset], &[RtrDiff(1)]]),
     ];
+    v.push(c(&[], &[1, 3], &[&[RtrFull, Json], &[Delta(0)]]));
     if tier == Tier::Thorough {
-        v.push(c(&[], &[1, 3], &[&[RtrFull, Json], &[Delta(0)]]));
         v.push(c(&[1], &[3, 7], &[&[RtrDiff(0), Json], &[Csv, Delta(1)]]));
     }
     v
@@ -569,7 +578,7 @@ pub fn run(ctx: &Ctx, rep: &mut Report, replay: Option<&serde_json::Value>) {
     if rep.violated() {
         return;
     }
-    run_prop(ctx, rep, "sched", ctx.tier.pick(2_500, 60_000), case_strategy(), |c, i| prop_sched(&world, c, i));
+    run_prop(ctx, rep, "sched", ctx.tier.pick(10_000, 150_000), case_strategy(), |c, i| prop_sched(&world, c, i));
     if rep.violated() {
         return;
     }
